@@ -248,8 +248,9 @@ def _keys_of_dict(e):
         return e
     if isinstance(e, ast.Call) and isinstance(e.func, ast.Attribute) and e.func.attr == 'keys' and not e.args:
         return _keys_of_dict(e.func.value)
-    if isinstance(e, ast.Call) and isinstance(e.func, ast.Name) and e.func.id in ('list', 'tuple') and len(e.args) == 1:
-        return _keys_of_dict(e.args[0])
+    if isinstance(e, ast.Call) and isinstance(e.func, ast.Name) and e.func.id in ('list', 'tuple', 'sorted') and len(e.args) == 1 \
+            and not e.keywords:
+        return _keys_of_dict(e.args[0])     # sorted(): the property does not fix the order of custom columns
     if isinstance(e, (ast.ListComp, ast.GeneratorExp)) and len(e.generators) == 1 and not e.generators[0].ifs \
             and isinstance(e.generators[0].target, ast.Name):
         k = e.generators[0].target.id
@@ -387,8 +388,22 @@ def ob_reader_keys(ctx, o, F):
     kw, star = call_kwargs(ctor, sn.params())
     cells = {}
     hdr_exprs = []
+    # the local name of the header map (kept unexpanded in reported constructs)
+    keepn = [rowvar]
+    full = None
+    for v in kw.values():
+        cs0 = _cell_of(fx.x(v, keep=[rowvar]), rowvar)
+        if cs0:
+            full = cs0[0][1]
+            break
+    if full is not None:
+        for n in ast.walk(loop):
+            if isinstance(n, ast.Name) and isinstance(n.ctx, ast.Load) and n.id != rowvar and n.id not in keepn \
+                    and fx.flow.node_of_expr(n) is not None and same(fx.x(n), full) and not same(n, full):
+                keepn.append(n.id)
+    F.hexpr = full
     for k, v in kw.items():
-        vx = fx.x(v, keep=[rowvar])
+        vx = fx.x(v, keep=keepn)
         cs = _cell_of(vx, rowvar)
         if not cs or const_str(cs[0][2]) is None or any(not same(c[0], cs[0][0]) for c in cs):
             o.undecided(f, ctor, v, f"TaskRaw keyword `{k}` is not computed from exactly one cell row[header['<name>']]")
@@ -411,8 +426,8 @@ def ob_reader_keys(ctx, o, F):
         o.undecided(f, ctor, f"TaskRaw(... {c}=)", f"TaskRaw receives keyword `{c}` which is not one of the ten default columns")
     # ---- header map: all cells use the same map, built as name -> index from the first row of the same reader
     hmaps = {src(h) for h in hdr_exprs}
-    if len(hmaps) == 1:
-        _header_map(ctx, o, F, r, hdr_exprs[0])
+    if len(hmaps) == 1 and full is not None:
+        _header_map(ctx, o, F, r, full)
     elif hmaps:
         o.undecided(f, ctor, ctor, "cells are looked up through different header maps")
     # ---- everything else -> **kwargs
@@ -589,9 +604,7 @@ def _kwargs_fill(ctx, o, F, r, star, consumed):
     else:
         o.undecided(f, at, it, "custom attribute loop does not iterate the header map")
         return
-    cells = F.reader_cells or {}
-    hdrs = {src(_cell_of(v[0], rowvar)[0][1]) for v in cells.values()}
-    if hdrs and src(hm) not in hdrs:
+    if getattr(F, 'hexpr', None) is not None and not same(hm, F.hexpr):
         o.undecided(f, at, it, f"custom attributes iterate `{src(hm)[:60]}`, the default cells use another header map")
         return
     if not (isinstance(key, ast.Name) and key.id == kname):
@@ -1285,6 +1298,16 @@ def _hop_kw(o, fn, call, field, value, srcvar, what):
     return False
 
 
+def _copy_hint(fn):
+    """fn touches attribute dictionaries / setattr although no generic copy loop was recognised"""
+    for n in walk_no_nested(fn.node):
+        if isinstance(n, ast.Attribute) and n.attr in ('__dict__', '__setattr__', 'update', '__getattribute__'):
+            return True
+        if isinstance(n, ast.Name) and n.id in ('vars', 'setattr', 'getattr'):
+            return True
+    return False
+
+
 def ob_fields(ctx, o, F):
     prog = ctx.prog
     t2r, r2w = prog.func(RAW + '.tasks_to_raws'), prog.func(RAW + '.raws_to_wbs')
@@ -1336,12 +1359,15 @@ def ob_fields(ctx, o, F):
         if field in akw:
             if not _hop_kw(o, t2r, actor, field, akw[field], tvar, 'TaskRaw'):
                 continue
-            if raw_sn.stores_param(field) != field:
+            if field not in raw_sn.stores_param(field):
                 o.refute(raw_sn.init, None, f"TaskRaw.__init__ {field}", f"TaskRaw.__init__ does not store parameter `{field}` as self.{field}")
                 continue
             route_a = 'kw'
         else:
             in_task_dict = field == CUSTOM or field in task_sn.inst
+            if acopy is None and _copy_hint(t2r):
+                o.undecided(t2r, actor, f"{label}: attribute copy idiom", "tasks_to_raws moves attributes in an idiom the rule does not recognise")
+                continue
             if acopy is None:
                 o.refute(t2r, actor, f"{label}: not passed to TaskRaw(...) and no generic attribute copy", f"`{label}` never reaches the TaskRaw")
                 continue
@@ -1382,7 +1408,7 @@ def ob_fields(ctx, o, F):
                 else:
                     o.refute(rd, None, f"{field}: column not read", f"column `{field}` is written but not passed to TaskRaw(...) on read")
                 continue
-            if raw_sn.stores_param(field) != field:
+            if field not in raw_sn.stores_param(field):
                 o.refute(raw_sn.init, None, f"TaskRaw.__init__ {field}", f"TaskRaw.__init__ does not store parameter `{field}` as self.{field}")
                 continue
         else:
@@ -1400,10 +1426,13 @@ def ob_fields(ctx, o, F):
         if field in dkw:
             if not _hop_kw(o, r2w, dctor, field, dkw[field], rvar, 'Task'):
                 continue
-            if task_sn.stores_param(field) is None:
+            if not task_sn.stores_param(field):
                 o.refute(task_sn.init, None, f"Task.__init__ {field}", f"Task.__init__ does not store parameter `{field}`")
                 continue
         else:
+            if dcopy is None and _copy_hint(r2w):
+                o.undecided(r2w, dctor, f"{label}: attribute copy idiom", "raws_to_wbs moves attributes in an idiom the rule does not recognise")
+                continue
             if dcopy is None:
                 o.refute(r2w, dctor, f"{label}: not passed to Task(...) and no generic attribute copy", f"`{label}` never reaches the rebuilt Task")
                 continue
@@ -1441,9 +1470,11 @@ def ob_no_leak(ctx, o, F):
         return
     dcopy, acopy = F.dcopy, F.acopy
     # raw -> task: structural keys must not pass; `id` must not pass either (Task.id has no setter)
-    if dcopy is None:
-        o.site(r2w, None, "no generic TaskRaw -> Task copy: nothing can leak")
-        o.site(r2w, None, "no generic TaskRaw -> Task copy: nothing can leak")
+    if dcopy is None and _copy_hint(r2w):
+        o.undecided(r2w, None, 'attribute copy idiom', "raws_to_wbs moves attributes in an idiom the rule does not recognise")
+    elif dcopy is None:
+        for key in STRUCTURAL + ['id']:
+            o.site(r2w, None, f"no generic TaskRaw -> Task copy: `{key}` cannot leak")
     else:
         env = KeyEnv(ctx, r2w)
         for key in STRUCTURAL + [p for p in task_sn.props if p in raw_sn.inst and prog.find_setter('Task', p) is None]:
@@ -1460,7 +1491,9 @@ def ob_no_leak(ctx, o, F):
             else:
                 o.site(r2w, dcopy.call, f"`{key}` excluded from the raw -> Task copy")
     # task -> raw: private fields must not pass
-    if acopy is None:
+    if acopy is None and _copy_hint(t2r):
+        o.undecided(t2r, None, 'attribute copy idiom', "tasks_to_raws moves attributes in an idiom the rule does not recognise")
+    elif acopy is None:
         o.site(t2r, None, "no generic Task -> TaskRaw copy: nothing can leak")
     else:
         env = KeyEnv(ctx, t2r)
@@ -1653,6 +1686,8 @@ def ob_order(ctx, o, F):
                         bad = c
                     elif isinstance(c, ast.Set) or isinstance(c, ast.SetComp):
                         bad = c
+                if bad is not None and isinstance(bad, ast.Call) and _order_neutral(bad, {}, fx):
+                    bad = None
                 if bad is not None:
                     o.refute(f, it, f"loop over {src(it)[:60]}", f"`{src(it)[:60]}` iterates in an order other than file / WBS order (`{src(bad)[:40]}`)")
                 else:
@@ -1661,7 +1696,8 @@ def ob_order(ctx, o, F):
             elif isinstance(n, ast.Call):
                 if isinstance(n.func, ast.Attribute) and n.func.attr in _REORDER_M and not isinstance(pm.get(id(n)), (ast.For, ast.comprehension)):
                     o.refute(f, n, src(n)[:80], f"`{src(n)[:60]}` reorders a sequence that must stay in file / WBS order")
-                elif isinstance(n.func, ast.Name) and n.func.id in ('sorted', 'reversed') and not _inside_iter(n, pm):
+                elif isinstance(n.func, ast.Name) and n.func.id in ('sorted', 'reversed') and not _inside_iter(n, pm) \
+                        and not _order_neutral(n, pm, fx):
                     o.refute(f, n, src(n)[:80], f"`{src(n)[:60]}` reorders a sequence that must stay in file / WBS order")
                 elif isinstance(n.func, ast.Attribute) and n.func.attr in ('insert', 'appendleft'):
                     o.refute(f, n, src(n)[:80], f"`{src(n)[:60]}` does not append at the end: sibling / row order is not preserved")
@@ -1713,6 +1749,28 @@ def ob_order(ctx, o, F):
             o.undecided(rd, rets[0], rv, "read_csv does not return raws_to_wbs(<accumulated rows>)")
     else:
         o.undecided(rd, rd.node, 'read_csv return', "read_csv has no single return")
+
+
+def _order_neutral(call, pm, fx):
+    """sorted()/reversed() of attribute-name keys (custom column order is not fixed by the property) or inside a logging call"""
+    cur = call
+    while id(cur) in pm:
+        cur = pm[id(cur)]
+        if isinstance(cur, ast.Call) and (attr_path(cur.func) == 'print' or (isinstance(cur.func, ast.Attribute) and cur.func.attr in
+                                          ('debug', 'info', 'warning', 'error', 'exception', 'log'))):
+            return True
+        if isinstance(cur, ast.stmt):
+            break
+    if call.args:
+        a = call.args[0]
+        if keys_owner(a) is not None:
+            return True
+        d = _keys_of_dict(a)
+        if isinstance(d, ast.Name) and d.id in fx.acc:
+            dv = [x for x in fx.flow.defs_of(d.id) if x.kind == 'assign' and x.value is not None]
+            if dv and all(isinstance(x.value, ast.Dict) or (isinstance(x.value, ast.Call) and getattr(x.value.func, 'id', '') == 'dict') for x in dv):
+                return True
+    return False
 
 
 def _inside_iter(n, pm):
